@@ -16,7 +16,7 @@ RULE = ("a case is (composite type built through the pydsdl constructors, value,
         "serialize, value returned by deserialize on those bytes (type-directed positional form, floats as binary64 patterns, every NaN "
         "one token), or the coarse exception class; implementation-alone predicates: decoded == value for exact values, re-encoding the "
         "decoded value reproduces the bytes, 8*len within min/max and residues mod 64 of the (inner) bit length set, relaxed form gives the "
-        "same bytes, histories on one type object (decode, mutate the returned object in place, serialize values that omit fields / decode again; every step compared with the pure model; no aliasing inside or between returned objects), int<->integral-float / 0-1-for-bool input coercions (implementation alone, not modelled) give the same bytes; non-trivial = the type has >= 2 value-carrying leaves or a nested composite/array and serialization succeeded; "
+        "same bytes, keyword arguments equal to the documented defaults omitted in a random half of the calls, histories on one type object (decode, mutate the returned object in place, serialize values that omit fields / decode again; every step compared with the pure model; no aliasing inside or between returned objects), int<->integral-float / 0-1-for-bool input coercions (implementation alone, not modelled) give the same bytes; non-trivial = the type has >= 2 value-carrying leaves or a nested composite/array and serialization succeeded; "
         "distinct = by hash of the canonical case")
 THEOREMS_NOTE = ("C06_wire_spec + C06_wire_unique fix the bytes (the Specification's bit-list encoding spec_enc, packed LSB first); C06_roundtrip / "
                  "C06_roundtrip_exact fix the decoded value (canon t v; v itself for exact values); C06_length_in_bls, C06_cast_*, C06_defaults_*; "
@@ -741,6 +741,7 @@ def run_history(p, B, case):
     except Exception as ex:  # pylint: disable=broad-except
         return {"build_error": type(ex).__name__, "pred_fail": "type construction failed: %s" % type(ex).__name__}
     rng = _random.Random(case.get("mseed", 0))
+    p = Api(p, case)
     steps_obs, fails = [], []
     keep, seen_ids = [], set()
 
@@ -1109,6 +1110,31 @@ def coerce_variant(t, v):
     return o if changed[0] else None
 
 
+class Api:
+    """pydsdl.serialize / pydsdl.deserialize as an application calls them: keyword arguments that equal the documented default
+    (with_delimiter_header=False, relaxed=False) are OMITTED for a random half of the calls, so that a change of a default is
+    observable.  The choice derives from the case itself (replays are exact)."""
+
+    def __init__(self, p, case):
+        import json
+        import zlib
+        self.p = p
+        self.r = _random.Random(zlib.crc32(json.dumps(case, sort_keys=True).encode()))
+
+    def serialize(self, schema, obj, with_delimiter_header=False, relaxed=False):
+        kw = {}
+        if with_delimiter_header or self.r.random() < 0.5:
+            kw["with_delimiter_header"] = with_delimiter_header
+        if relaxed or self.r.random() < 0.5:
+            kw["relaxed"] = relaxed
+        return self.p.serialize(schema, obj, **kw)
+
+    def deserialize(self, schema, data, with_delimiter_header=False):
+        if with_delimiter_header or self.r.random() < 0.5:
+            return self.p.deserialize(schema, data, with_delimiter_header=with_delimiter_header)
+        return self.p.deserialize(schema, data)
+
+
 def observe_deser(p, schema, t, data, hdr):
     try:
         o = p.deserialize(schema, data, with_delimiter_header=hdr)
@@ -1132,12 +1158,13 @@ def length_pred(schema, t, hdr, nbytes):
 
 
 def run_impl(cases):
-    import pydsdl as p
+    import pydsdl as pydsdl_module
+    p = pydsdl_module
     B = Builder()
     out = []
     for case in cases:
         if "hist" in case:
-            out.append(run_history(p, B, case))
+            out.append(run_history(pydsdl_module, B, case))
             continue
         t, v, hdr = case["ty"], case["val"], case["hdr"]
         try:
@@ -1145,6 +1172,7 @@ def run_impl(cases):
         except Exception as ex:  # pylint: disable=broad-except
             out.append({"build_error": type(ex).__name__, "pred_fail": "type construction failed: %s" % type(ex).__name__})
             continue
+        p = Api(pydsdl_module, case)
         obj = to_py(t, v)
         try:
             bs = p.serialize(schema, obj, with_delimiter_header=hdr)
